@@ -416,6 +416,10 @@ func (w *World) applyBatch(op Op) {
 			}
 			return
 		}
+		if want == eWrongType && err != nil {
+			// the statement does not say which error reports a foreign object
+			got = want
+		}
 		if got != want {
 			w.fail("many-class|"+want+"->"+got, fmt.Sprintf("InsertOrUpdateMany%s: expected %s, got %s (%v)", jsonOf(op.Batch), want, got, err))
 			return
@@ -424,7 +428,7 @@ func (w *World) applyBatch(op Op) {
 			if n != len(objs) {
 				w.fail("many-count", fmt.Sprintf("InsertOrUpdateMany accepted %d objects but reported n=%d", len(objs), n))
 			}
-			w.acceptBatch(recs, pre)
+			w.acceptBatch(recs, pre, map[*Rec]bool{})
 		} else if n != 0 {
 			w.fail("many-count-fail", fmt.Sprintf("InsertOrUpdateMany failed (%s) but reported n=%d", got, n))
 		}
@@ -440,6 +444,7 @@ func (w *World) applyBatch(op Op) {
 	// model: fold many over chunks
 	wantN := 0
 	wantClass := eOK
+	done := map[*Rec]bool{}
 	cs := op.CSize
 	if cs <= 0 {
 		cs = len(objs) + 1 // a non-positive chunk size never fills a chunk: everything is one final chunk
@@ -457,7 +462,7 @@ func (w *World) applyBatch(op Op) {
 			wantClass = c
 			break
 		}
-		w.acceptBatch(recs[i:j], pre[i:j])
+		w.acceptBatch(recs[i:j], pre[i:j], done)
 		wantN += j - i
 	}
 	got := classify(err)
@@ -465,6 +470,7 @@ func (w *World) applyBatch(op Op) {
 		if err == nil {
 			w.fail("bulk-othercoll", "InsertOrUpdateBulk with a chunk for an unknown collection succeeded")
 		}
+	} else if wantClass == eWrongType && err != nil {
 	} else if got != wantClass {
 		w.fail("bulk-class|"+wantClass+"->"+got, fmt.Sprintf("InsertOrUpdateBulk%s csize=%d: expected %s, got %s (%v)", jsonOf(op.Batch), op.CSize, wantClass, got, err))
 		return
@@ -474,8 +480,7 @@ func (w *World) applyBatch(op Op) {
 	}
 }
 
-func (w *World) acceptBatch(recs []*Rec, pre []string) {
-	done := map[*Rec]bool{}
+func (w *World) acceptBatch(recs []*Rec, pre []string, done map[*Rec]bool) {
 	for i, r := range recs {
 		isNew := pre[i] == "" && !done[r]
 		done[r] = true
